@@ -1017,6 +1017,7 @@ static void do_op(char **t, int ntok)
 		else if (!strcmp(t[3], "float")) { double v = cfg_getnfloat(sec, s1, idx); fprintf(out, "r get %.17g", v); }
 		else if (!strcmp(t[3], "bool")) { int v = (int)cfg_getnbool(sec, s1, idx); fprintf(out, "r get %d", v); }
 		else if (!strcmp(t[3], "str")) { char *v = cfg_getnstr(sec, s1, idx); fprintf(out, "r get "); enc(out, v); }
+		else if (!strcmp(t[3], "ptr")) { struct pv *v = idx ? cfg_getnptr(sec, s1, idx) : cfg_getptr(sec, s1); fprintf(out, "r get "); enc(out, v ? v->text : NULL); }
 		else if (!strcmp(t[3], "size")) { unsigned v = cfg_size(sec, s1); fprintf(out, "r get %u", v); }
 		else if (!strcmp(t[3], "comment")) { char *v = cfg_getcomment(sec, s1); fprintf(out, "r get "); enc(out, v); }
 		else die("get: kind");
@@ -1044,6 +1045,14 @@ static void do_op(char **t, int ntok)
 		rc = E(cfg_parse_buf(dst->cfg, buf));
 		fprintf(out, "r roundtrip %d ", rc); enc_n(out, buf, len); fputc('\n', out);
 		free(buf);
+	} else if (!strcmp(op, "misc")) {
+		/* small accessors without an operation of their own: misc <secref> <optname> */
+		cfg_opt_t *o;
+		NEED(3); SEC(t[1]); s1 = dec(t[2], NULL);
+		o = leaf(sec, s1);
+		fprintf(out, "r misc num=%u numopts=%d getstr=", cfg_num(sec), cfg_numopts(sec->opts));
+		enc(out, o && o->type == CFGT_STR ? cfg_opt_getstr(o) : NULL);
+		fprintf(out, " bool=%d,%d,%d\n", cfg_parse_boolean("yes"), cfg_parse_boolean("Off"), cfg_parse_boolean("maybe"));
 	} else if (!strcmp(op, "pffnames")) {
 		int k, i;
 		NEED(2); k = atoi(t[1]);
